@@ -23,6 +23,9 @@ import (
 	"sync"
 
 	"google.golang.org/grpc"
+	"google.golang.org/grpc/codes"
+	"google.golang.org/grpc/metadata"
+	"google.golang.org/grpc/status"
 )
 
 type key int
@@ -142,4 +145,62 @@ func (cs *gcpClientStream) RecvMsg(m interface{}) error {
 		return err
 	}
 	return realCS.RecvMsg(m)
+}
+
+// The methods below are promoted from the embedded ClientStream once it exists. Before
+// the first SendMsg has created it they must not be forwarded to the nil ClientStream.
+
+// realStream returns the underlying ClientStream, or nil if the first SendMsg has not
+// created it (yet).
+func (cs *gcpClientStream) realStream() grpc.ClientStream {
+	cs.Lock()
+	defer cs.Unlock()
+	return cs.ClientStream
+}
+
+// Header waits, like RecvMsg, until the first SendMsg has created the underlying
+// ClientStream. It returns the creation error if that failed and the context's error if
+// the call's context ends first.
+func (cs *gcpClientStream) Header() (metadata.MD, error) {
+	select {
+	case <-cs.ready:
+	case <-cs.ctx.Done():
+		return nil, cs.ctx.Err()
+	}
+	cs.Lock()
+	err, realCS := cs.initStreamErr, cs.ClientStream
+	cs.Unlock()
+	if realCS == nil {
+		return nil, err
+	}
+	return realCS.Header()
+}
+
+// Trailer returns nil as long as the underlying ClientStream does not exist.
+func (cs *gcpClientStream) Trailer() metadata.MD {
+	realCS := cs.realStream()
+	if realCS == nil {
+		return nil
+	}
+	return realCS.Trailer()
+}
+
+// CloseSend reports an error when nothing has been sent yet: the underlying
+// ClientStream is only created by the first SendMsg.
+func (cs *gcpClientStream) CloseSend() error {
+	realCS := cs.realStream()
+	if realCS == nil {
+		return status.Error(codes.FailedPrecondition, "grpcgcp: CloseSend called before the first SendMsg")
+	}
+	return realCS.CloseSend()
+}
+
+// Context returns the context of the underlying ClientStream, and the context the
+// stream was requested with as long as the underlying ClientStream does not exist.
+func (cs *gcpClientStream) Context() context.Context {
+	realCS := cs.realStream()
+	if realCS == nil {
+		return cs.ctx
+	}
+	return realCS.Context()
 }
